@@ -727,6 +727,9 @@ def _formula(fn, t, norm):
         return (t[1], _formula(fn, t[2], norm), _formula(fn, t[3], norm))
     if t[0] == 'op' and len(t) == 4 and t[1] in ('<', '>', '<=', '>=', '==', '!='):
         a, b, rel = norm(t[2]), norm(t[3]), t[1]
+        cr = _cross_atom(a, rel, b)
+        if cr is not None:
+            return cr
         if repr(a) > repr(b):
             a, b = b, a
             rel = {'<': '>', '>': '<', '<=': '>=', '>=': '<=', '==': '==', '!=': '!='}[rel]
@@ -734,6 +737,45 @@ def _formula(fn, t, norm):
     if t[0] == 'lit':
         return ('const', bool(t[1]))
     return ('other', t)
+
+
+_SWAP = {'<': '>', '>': '<', '<=': '>=', '>=': '<=', '==': '==', '!=': '!='}
+
+
+def _cross_atom(a, rel, b):
+    """Comparisons of two slopes that share a point and the sign of cross() are the same fact; one canonical atom for both:
+      cross(O, A, B) rel 0  <=>  slope(B - A) rel slope(A - O)  <=>  slope(B - O) rel slope(A - O)
+    (cross(O, A, B) = (A-O) x (B-O) = (A-O) x (B-A), and Slope::operator< compares by cross-multiplication)."""
+    def is_zero(x):
+        x = nocast(x)
+        return x[0] == 'lit' and x[1] == 0
+
+    def cross_args(x):
+        x = nocast(x)
+        if x[0] == 'call' and str(x[1]).endswith('::cross') and len(x[2]) == 3:
+            return tuple(nocast(y) for y in x[2])
+        return None
+
+    def diff(x):
+        x = nocast(x)
+        if x[0] == 'op' and len(x) == 4 and x[1] == '-':
+            return nocast(x[2]), nocast(x[3])
+        return None
+    ca, cb = cross_args(a), cross_args(b)
+    if ca and is_zero(b):
+        return ('atom', (('cross',) + ca, ('lit', 0)), rel)
+    if cb and is_zero(a):
+        return ('atom', (('cross',) + cb, ('lit', 0)), _SWAP[rel])
+    da, db = diff(a), diff(b)
+    if da and db:
+        (P, Q), (R, S) = da, db
+        if Q == R:          # (P - Q) rel (Q - S): O = S, A = Q, B = P
+            return ('atom', (('cross', S, Q, P), ('lit', 0)), rel)
+        if S == P:          # (P - Q) rel (R - P): the mirrored form, O = Q, A = P, B = R
+            return ('atom', (('cross', Q, P, R), ('lit', 0)), _SWAP[rel])
+        if Q == S:          # (P - O) rel (R - O): O = Q, A = R, B = P
+            return ('atom', (('cross', Q, R, P), ('lit', 0)), rel)
+    return None
 
 
 def _pairs(f, out=None):
